@@ -974,7 +974,7 @@ class Srfi146(Lib):
         # trees made by tree-split / tree-catenate break later deletions on the unchanged tree (known finding):
         # the range and catenate operations are kept to a third of the histories, and a violation after one of them
         # says so in its signature
-        h.split_ops = rng.random() < 0.33
+        h.split_ops = rng.random() < 0.67
         h.sig_extra = {"after": "none"}
 
     def __init__(self):
@@ -1209,9 +1209,9 @@ class Iset(Lib):
         return base + rng.choice([0, 1, 2, 3])
 
     def begin(self, h, rng):
-        # iset-union builds trees with overlapping nodes on the unchanged tree (known finding; everything that walks the
-        # tree afterwards can be wrong): kept to a third of the histories and named in later signatures
-        h.risky = rng.random() < 0.33
+        # iset-union used to build trees with overlapping nodes (repaired, fix 81ffddf); unions are still named in later
+        # signatures so that a return of that kind of damage is attributed, and now take part in two thirds of the histories
+        h.risky = rng.random() < 0.67
         h.sig_extra = {"after": "none"}
 
     def init(self, rng, i):
@@ -1434,7 +1434,7 @@ class Srfi117(SeqLib):
     def begin(self, h, rng):
         # list-queue-remove-back! leaves a stale last-pair pointer on the unchanged tree (known finding): it is kept to
         # a third of the histories and named in the signature of whatever goes wrong afterwards
-        h.risky = rng.random() < 0.33
+        h.risky = rng.random() < 0.67
         h.sig_extra = {"after": "none"}
 
     def store(self, h, d, val, expr, name):
@@ -1524,7 +1524,7 @@ class Srfi134(SeqLib):
     def begin(self, h, rng):
         # ideque-drop / ideque-take-right build deques with a wrong length field on the unchanged tree (known finding):
         # kept to a third of the histories and named in the signature of whatever goes wrong afterwards
-        h.risky = rng.random() < 0.33
+        h.risky = rng.random() < 0.67
         h.sig_extra = {"after": "none"}
 
     def with_k(self, name, fexpr, fmodel, strict=False):
